@@ -280,12 +280,12 @@ impl Report {
 		}
 		// keep at most 40 literal violations, but count all by signature
 		self.count(&format!("violation:{}", signature));
-		if self.violations.len() < 40
+		if self.violations.len() < 300
 			&& self
 				.violations
 				.iter()
 				.filter(|v| v.signature == signature)
-				.count() < 3
+				.count() < 2
 		{
 			self.violations.push(Violation {
 				signature: signature.to_string(),
@@ -413,4 +413,77 @@ pub fn trunc(s: &str, n: usize) -> String {
 		}
 		format!("{}…(+{}B)", &s[..e], s.len() - e)
 	}
+}
+
+// ---------------------------------------------------------------- counting allocator
+
+use std::alloc::{GlobalAlloc, Layout, System};
+use std::sync::atomic::{AtomicBool, AtomicI64, AtomicU64, Ordering as AO};
+
+pub struct CountingAlloc;
+
+static CUR: AtomicI64 = AtomicI64::new(0);
+static PEAK: AtomicI64 = AtomicI64::new(0);
+static BIGGEST: AtomicU64 = AtomicU64::new(0);
+static TRACK: AtomicBool = AtomicBool::new(false);
+/// single allocations above this are refused (null) while tracking: the process then aborts with
+/// "memory allocation failed", which the orchestrator reports with the journalled input
+pub const ALLOC_HARD_CAP: usize = 2 << 30;
+
+unsafe impl GlobalAlloc for CountingAlloc {
+	unsafe fn alloc(&self, l: Layout) -> *mut u8 {
+		if TRACK.load(AO::Relaxed) {
+			if l.size() > ALLOC_HARD_CAP {
+				return std::ptr::null_mut();
+			}
+			let c = CUR.fetch_add(l.size() as i64, AO::Relaxed) + l.size() as i64;
+			PEAK.fetch_max(c, AO::Relaxed);
+			BIGGEST.fetch_max(l.size() as u64, AO::Relaxed);
+		}
+		System.alloc(l)
+	}
+	unsafe fn dealloc(&self, p: *mut u8, l: Layout) {
+		if TRACK.load(AO::Relaxed) {
+			CUR.fetch_sub(l.size() as i64, AO::Relaxed);
+		}
+		System.dealloc(p, l)
+	}
+	unsafe fn realloc(&self, p: *mut u8, l: Layout, new_size: usize) -> *mut u8 {
+		if TRACK.load(AO::Relaxed) {
+			if new_size > ALLOC_HARD_CAP {
+				return std::ptr::null_mut();
+			}
+			let d = new_size as i64 - l.size() as i64;
+			let c = CUR.fetch_add(d, AO::Relaxed) + d;
+			PEAK.fetch_max(c, AO::Relaxed);
+			BIGGEST.fetch_max(new_size as u64, AO::Relaxed);
+		}
+		System.realloc(p, l, new_size)
+	}
+}
+
+/// start measuring: returns nothing; `alloc_stop` returns the peak growth in bytes
+pub fn alloc_start() {
+	CUR.store(0, AO::Relaxed);
+	PEAK.store(0, AO::Relaxed);
+	BIGGEST.store(0, AO::Relaxed);
+	TRACK.store(true, AO::Relaxed);
+}
+pub fn alloc_stop() -> (u64, u64) {
+	TRACK.store(false, AO::Relaxed);
+	(
+		std::cmp::max(PEAK.load(AO::Relaxed), 0) as u64,
+		BIGGEST.load(AO::Relaxed),
+	)
+}
+
+pub fn thread_cpu_secs() -> f64 {
+	let mut ts = libc::timespec {
+		tv_sec: 0,
+		tv_nsec: 0,
+	};
+	unsafe {
+		libc::clock_gettime(libc::CLOCK_THREAD_CPUTIME_ID, &mut ts);
+	}
+	ts.tv_sec as f64 + ts.tv_nsec as f64 * 1e-9
 }
